@@ -291,11 +291,15 @@ struct World {
   int         cur_ev = -1;
   long        seq = 0; // global order stamp
   bool        in_timer = false, in_closure = false;
+  uint64_t         fail_at = 0;  // C14: 1-based index of the allocation (counted from channel set-up) that fails; 0 = none
+  std::vector<int> write_plan; // C20: bytes each successive TCP send() accepts (0 = would-block); exhausted => accept everything
+  size_t           write_pos = 0;
   std::vector<int> flush_evs; // event indexes of reinit / server membership changes (the cache must be empty after each)
   bool        nested_cb = false;
   int         cb_depth = 0;
   int         setservers_variant = -1; // last applied
   std::string servers_csv;
+  std::string leak_sites; // allocation sites of leaked blocks (only when the ledger traces)
   // counters for witnesses
   std::map<std::string, uint64_t> wit;
 
